@@ -1034,8 +1034,27 @@ func init() {
 				shapes = append(shapes, sh{"selfbag", 3, k})
 			}
 		}
+		// deep layered DAGs whose roots are good (linear cost; the failing variants would take 3^d verifications)
+		deepOK := map[sh]bool{}
+		for _, d := range []int{8, 9, 10, 12} {
+			for _, wd := range []int{2, 3} {
+				k := sh{"layered", wd, d}
+				est := 1
+				for i := 0; i < d; i++ {
+					est *= wd
+				}
+				if est <= 3000 {
+					continue // already in the list above, with failing roots too
+				}
+				deepOK[k] = true
+				shapes = append(shapes, k)
+			}
+		}
 		for _, s := range shapes {
 			for _, rootOK := range []bool{true, false} {
+				if deepOK[s] && !rootOK {
+					continue
+				}
 				w := shapeWorld(o.seed, id, s.shape, s.width, s.depth, rootOK)
 				label := fmt.Sprintf("%s width=%d depth=%d root_ok=%v", s.shape, s.width, s.depth, rootOK)
 				labels[id] = label
